@@ -486,6 +486,31 @@ func inlineOneCall(module *Module, caller *Function, call StmtCall, callee *Func
 		}
 	}
 
+	// 5b. A callee local is initialised on every entry to the callee (with its
+	// initialiser, or with zero). The copy in the caller is initialised once,
+	// at the caller's entry, so a call site inside a loop would start the
+	// second call with the values the first call left behind. Store the
+	// initial value at the call site.
+	for i := range callee.LocalVars {
+		idx := uint32(int(localOffset) + i)
+		lvType := callee.LocalVars[i].Type
+		ptrHandle := ExpressionHandle(len(caller.Expressions))
+		caller.Expressions = append(caller.Expressions, Expression{Kind: ExprLocalVariable{Variable: idx}})
+		caller.ExpressionTypes = append(caller.ExpressionTypes, TypeResolution{
+			Value: PointerType{Base: lvType, Space: SpaceFunction},
+		})
+		var value ExpressionHandle
+		if init := caller.LocalVars[idx].Init; init != nil {
+			value = *init
+		} else {
+			value = ExpressionHandle(len(caller.Expressions))
+			caller.Expressions = append(caller.Expressions, Expression{Kind: ExprZeroValue{Type: lvType}})
+			t := lvType
+			caller.ExpressionTypes = append(caller.ExpressionTypes, TypeResolution{Handle: &t})
+		}
+		prefixStmts = append(prefixStmts, Statement{Kind: StmtStore{Pointer: ptrHandle, Value: value}})
+	}
+
 	// 6. Copy callee's NamedExpressions into caller with remapped
 	// handles. Names are prefixed with the callee function name so two
 	// helpers that both define `let foo = ...` don't collide in the
